@@ -27,6 +27,7 @@ def main():
         from harness import pilot_sim                  # noqa
         from harness import nodefile_sim               # noqa
         from harness import worker_sim                 # noqa
+        from harness import app_sim                    # noqa
         fn = builders.BUILDERS.get(case['function'])
         if fn is None:
             out = dict(confirmed=None,
